@@ -104,3 +104,43 @@ func verifGauges(sc *serverConn, strms Streams, open, closed int) {
 
 	(*h)(g)
 }
+
+// VerifPoison overwrites the first 4 KiB (of capacity) of every byte buffer a
+// pooled object owns with 0xDD. The harness calls it from the pool hook when an object
+// is released: nobody may read the object after that, so for correct code this
+// is invisible, while code that still holds a slice into one of the buffers
+// reads garbage at once rather than whenever the pool happens to hand the
+// object to somebody else.
+func VerifPoison(obj any) {
+	fill := func(b []byte) {
+		b = b[:min(cap(b), 4096)]
+		for i := range b {
+			b[i] = 0xDD
+		}
+	}
+
+	switch x := obj.(type) {
+	case *FrameHeader:
+		fill(x.payload)
+		fill(x.rawHeader[:])
+	case *Data:
+		fill(x.b)
+	case *Headers:
+		fill(x.rawHeaders)
+	case *Continuation:
+		fill(x.rawHeaders)
+	case *PushPromise:
+		fill(x.header)
+	case *GoAway:
+		fill(x.data)
+	case *Settings:
+		fill(x.rawSettings)
+	case *HeaderField:
+		fill(x.key)
+		fill(x.value)
+	case *Stream:
+		fill(x.scheme)
+		fill(x.path)
+		fill(x.previousHeaderBytes)
+	}
+}
